@@ -123,7 +123,9 @@ class GeckoSnapshot:
         )
 
     def _re_data_segment(self, groups):
-        data = groups[0].replace("'", "\\x27")
+        # Protect apostrophes that repr() left bare (an even number of backslashes
+        # in front); one that repr() already escaped as \' is kept as it is
+        data = re.sub(r"(?<!\\)((?:\\\\)*)'", r"\1\\x27", groups[0])
         bytes_ = ast.literal_eval(f"b'{data}'")
         self._status_block_handler.handle(bytes_, None)
         self._status_block_segments.append(self._status_block_handler.data)
